@@ -19,7 +19,10 @@ import (
 	"runtime"
 	"runtime/debug"
 	"sort"
+	"strconv"
 	"sync"
+	"sync/atomic"
+	"time"
 )
 
 // Result is one line of replay output.
@@ -33,6 +36,7 @@ type Result struct {
 	Got   interface{} `json:"got,omitempty"`
 	Panic string      `json:"panic,omitempty"`
 	Extra interface{} `json:"extra,omitempty"`
+	Skip  bool        `json:"skip,omitempty"`
 }
 
 // Args are the parsed common flags.
@@ -123,13 +127,33 @@ func ReplayAll(a *Args, fn func(i int, raw json.RawMessage) Result) error {
 		par = 1
 	}
 	sem := make(chan struct{}, par)
+	// A record that produces no result within the deadline is a failing result of its own ("never deadlocks",
+	// C19; a runaway loop on remote input, C18): the goroutine is abandoned and the run goes on.  After a few such
+	// records the rest is skipped (marked, not judged) so that a systematic hang cannot outlast the run.
+	deadline := 120 * time.Second
+	if v, err := strconv.Atoi(os.Getenv("VERIF_RECORD_TIMEOUT")); err == nil && v > 0 {
+		deadline = time.Duration(v) * time.Second
+	}
+	var hung int32
 	for i := range recs {
 		wg.Add(1)
 		sem <- struct{}{}
 		go func(i int) {
 			defer wg.Done()
 			defer func() { <-sem }()
-			res[i] = Safely(i, func() Result { return fn(i, recs[i]) })
+			if atomic.LoadInt32(&hung) >= 3 {
+				res[i] = Result{I: i, OK: true, Skip: true, What: "not run: earlier records hung"}
+				return
+			}
+			done := make(chan Result, 1)
+			go func() { done <- Safely(i, func() Result { return fn(i, recs[i]) }) }()
+			select {
+			case r := <-done:
+				res[i] = r
+			case <-time.After(deadline):
+				atomic.AddInt32(&hung, 1)
+				res[i] = Result{I: i, OK: false, Key: "hang", What: fmt.Sprintf("no result within %s: deadlock, livelock or runaway computation", deadline)}
+			}
 		}(i)
 	}
 	wg.Wait()
